@@ -88,12 +88,16 @@ def parse_name(s, n):
     return sorted(bag)
 
 
-def run_est(ctx, n, degree, io, bias, kind, rng):
+def run_est(ctx, n, degree, io, bias, kind, rng, ef=None):
+    """One block on estimator `ef` (a fresh one if None): set_params, fit, transform, names."""
     from mlinsights.mlmodel import ExtendedFeatures
     skb, pf = sk_bags(n, degree, io, bias)
     rows = [PRIMES[:n]] + [[rng.randint(-3, 4) for _ in range(n)] for _ in range(3)]
     X = numpy.array(rows, dtype=numpy.float64)
-    ef = ExtendedFeatures(kind=kind, poly_degree=degree, poly_interaction_only=io, poly_include_bias=bias)
+    if ef is None:
+        ef = ExtendedFeatures(kind=kind, poly_degree=degree, poly_interaction_only=io, poly_include_bias=bias)
+    else:
+        ef.set_params(kind=kind, poly_degree=degree, poly_interaction_only=io, poly_include_bias=bias)
     out = ef.fit(X).transform(X)
     ref = pf.transform(X)
     cols = [factor(v, n) for v in out[0]]
@@ -101,6 +105,20 @@ def run_est(ctx, n, degree, io, bias, kind, rng):
     return dict(n=n, degree=degree, io=io, bias=bias, kind=kind, cols=cols, names=names,
                 nout=int(ef.n_output_features_), skcols=skb,
                 eqsk=bool(out.shape == ref.shape and numpy.array_equal(out, ref)))
+
+
+def run_history(ctx, rng, length):
+    """A history of blocks on ONE instance (refits with other configurations / other widths)."""
+    from mlinsights.mlmodel import ExtendedFeatures
+    ef = ExtendedFeatures()
+    ev = []
+    n = rng.randint(1, 4)
+    for _ in range(length):
+        if rng.random() < 0.4:
+            n = rng.randint(1, 4)
+        ev.append(run_est(ctx, n, rng.randint(1, 4), rng.random() < 0.5, rng.random() < 0.5,
+                          rng.choice(["poly", "poly-slow"]), rng, ef=ef))
+    return ev
 
 
 def _sig(c):
@@ -185,10 +203,16 @@ def run(ctx):
         for kind in ("poly", "poly-slow"):
             try:
                 t = run_est(ctx, n, degree, io, bias, kind, rng)
-                t.update(id=len(etr) + 1, sig=_sig(c) + " " + kind, site=ESITE)
-                etr.append(t)
+                etr.append(dict(id=len(etr) + 1, sig=_sig(c) + " " + kind, site=ESITE, ev=[t]))
             except Exception as e:
                 ctx.violation("EstimatorRuns", ESITE, _sig(c) + " " + kind, repr(e), case=c)
+    for _ in range(150 if thorough else 40):
+        try:
+            ev = run_history(ctx, rng, rng.randint(2, 4))
+            etr.append(dict(id=len(etr) + 1, sig="history", site=ESITE, ev=ev))
+            ctx.case(("hist", tuple((e["n"], e["degree"], e["io"], e["bias"], e["kind"]) for e in ev)))
+        except Exception as e:
+            ctx.violation("EstimatorRuns", ESITE, "history", repr(e))
     for mod, trs in (("PolyTrace", ktr), ("PolyEstTrace", etr)):
         verdicts, st = tlc.validate(mod, "PolyTrace.cfg", trs, timeout=1200)
         ctx.states += st["states"]
